@@ -19,6 +19,9 @@ CHECKS = {
  "C03": ("exploration", "runtime monitoring: pending-operation oracle at virtual-time quiescence of a healthy drained transport + zero-progress frame counter",
          "Held on N seeded executions: at quiescence (paused clock, all frames released, every receiver consuming) no send/connect is left pending, after histories of cancelled sends (random poll indices, cancel-at-quiescence behind a stalled transport), try_send on full queues, connect(k ports) with left-over credits, and with another port's receiver idle; no operation emitted a PortData frame without ports.",
          "bounded liveness only: 'eventually' is restated as 'by quiescence'; starvation needing more virtual time than a run is not reached", "DESIGN.md §3 C03", "simnet+wiremon+quiescence"),
+ "C09": ("exploration", "runtime monitoring: differential conversation between a real endpoint and an independent reference codec (harness as v2/v3 peer), complete (direction x kind x flags x version) cell coverage",
+         "Held on N scripted conversations in which the harness speaks reference-encoded bytes as a version-2 or version-3 peer: every frame the real endpoint emitted decoded strictly and matched what the triggering API action implies, every reference-encoded frame was understood as intended, ids were sent to v3 peers only, and length-prefixed framing held over a fragmenting byte pipe; all 108 (direction, kind, flag set, peer version) cells must be observed or the check fails as broken.",
+         "trusts: harness/src/refcodec.rs as the frozen statement of the published layout (written from the documentation, not from remoc's encoder)", "DESIGN.md §3 C09", "refcodec+peer"),
 }
 
 NOT_YET = "check not yet implemented in this commit (DESIGN.md §6a gives the order of implementation)"
